@@ -118,4 +118,12 @@ PROPS = {
         assumptions=['schedules are sampled (GOMAXPROCS, injected yields/sleeps in the backend ReadAt, repetition), not enumerated; the race detector flags only races that occur in an explored schedule',
                      'GetCacheSize is not called concurrently (the statement names resizing, not querying)'],
     ),
+    'C19': dict(
+        level='exploration',
+        quick=dict(runs=[run('TestC19', 120, timeout=400, shrinktime='30s')]),
+        thorough=dict(runs=[run('TestC19', 3000, timeout=3000, shrinktime='120s')]),
+        assumptions=['a content write (and a FAT rename) may legitimately move timestamps, so time expectations of that node are dropped at that point; mode/owner/flag expectations are kept',
+                     'FAT creation and access times are only observable in the raw directory entry, read with the independent parser; access time has date resolution',
+                     'the sandbox runs as uid 0, so os.Lchown on workspace files works'],
+    ),
 }
